@@ -344,6 +344,9 @@ type c10CLICase struct {
 	Bin      bool   `json:"bin"`
 	End      bool   `json:"end,omitempty"`      // a global -e 2021/01/01: the unreadable part lies in days after the period
 	Defaults bool   `json:"defaults,omitempty"` // the files are ./food.yaml and ./log.yaml of the working directory, no -d / -l
+	// ViaConfig: the unreadable path is named by the configuration file (not by -d / -l), and the working directory holds
+	// readable files under the default names: the configured path is the one that counts
+	ViaConfig bool `json:"viaconfig,omitempty"`
 }
 
 func c10LongFile(isLog bool, shape string, size int, pos string) string {
@@ -613,6 +616,24 @@ func checkC10CLI(c c10CLICase, ctx *vCtx) *vFailure {
 		if c.End {
 			inv.Args = append([]string{"-e", "2021/01/01"}, inv.Args...)
 		}
+		if c.ViaConfig {
+			cwd := filepath.Join(vScratchDir(), "c10-cwd-cfg")
+			_ = os.RemoveAll(cwd)
+			_ = os.MkdirAll(cwd, 0o755)
+			_ = os.WriteFile(filepath.Join(cwd, "food.yaml"), []byte(c10LongFile(false, "", 0, "")), 0o644)
+			_ = os.WriteFile(filepath.Join(cwd, "log.yaml"), []byte(c10LongFile(true, "", 0, "")), 0o644)
+			key, bad, flag, good := "DbFileName", bp, "-l", lp
+			if onLog {
+				key, bad, flag, good = "LogFileName", lp, "-d", bp
+			}
+			cfg := vWriteFile("c10-viaconfig.conf", "[Global]\n"+key+"="+bad+"\n")
+			for i, a := range args {
+				if a == bad {
+					args[i] = bad // lint takes the path as an argument: unchanged
+				}
+			}
+			inv = vInvocation{Args: append([]string{"--today", vToday, "--config", cfg, flag, good}, args...), Cwd: cwd}
+		}
 		if c.Defaults {
 			// the same files under their default names in a private working directory
 			cwd := filepath.Join(vScratchDir(), "c10-cwd")
@@ -689,6 +710,9 @@ func c10CLISpace() []c10CLICase {
 				continue
 			}
 			out = append(out, c10CLICase{Cmd: ci, OnLog: onLog, Shape: "dir"})
+			if cm.args[0] != "lint" {
+				out = append(out, c10CLICase{Cmd: ci, OnLog: onLog, Shape: "dir", ViaConfig: true})
+			}
 			out = append(out, c10CLICase{Cmd: ci, OnLog: onLog, Shape: "dir-proc", Bin: ci%2 == 0})
 			out = append(out, c10CLICase{Cmd: ci, OnLog: onLog, Shape: "fifo"})
 			if onLog && cm.book {
